@@ -837,6 +837,12 @@ class Workspace(_ChannelSummaryMixin, dict):
                             "inits": parset_spec['paramset'].suggested_init,
                             "fixed": parset_spec['paramset'].suggested_fixed_as_bool,
                             "name": parset_name,
+                            # constraint settings (e.g. the lumi central value and width) belong to the model too
+                            **{
+                                attr: list(getattr(parset_spec['paramset'], attr))
+                                for attr in ('auxdata', 'sigmas', 'factors')
+                                if hasattr(parset_spec['paramset'], attr)
+                            },
                         }
                         for parset_name, parset_spec in model.config.par_map.items()
                     ],
